@@ -177,7 +177,10 @@ impl TryFrom<&Headers> for Envelope {
                     if from.len() > 1 {
                         return Err(Error::TooManyFrom);
                     }
-                    let from = from.pop().expect("From header has 1 Mailbox");
+                    // A `From` header holding an empty list is no sender at all
+                    let Some(from) = from.pop() else {
+                        return Err(Error::MissingFrom);
+                    };
                     Some(from.email)
                 }
                 None => None,
